@@ -423,8 +423,10 @@ INVARIANTS = ["C09_Consistent", "C09_Partition", "C09_Moved", "C09_Created", "C0
 def run(c: checklib.Check):
     ds = ds_module()
     c.note(f"dirsnapshot under test: {ds.__file__}")
-    design = ["quick"] if not c.thorough else ["quick", "sizes", "deep", "root", "thorough"]
-    exhaustive_py = ["quick"] if not c.thorough else ["quick", "sizes", "deep", "root", "thorough", "full"]
+    # "root": the root's own inode / device vary and collide with the entries' (a root that is a renamed child, a child that
+    # is the old root): also in the quick tier
+    design = ["quick", "root"] if not c.thorough else ["quick", "sizes", "deep", "root", "thorough"]
+    exhaustive_py = ["quick", "root"] if not c.thorough else ["quick", "sizes", "deep", "root", "thorough", "full"]
 
     # ---- 1. design spec: the laws hold for the transcription over all ordered pairs
     # negative config first: the laws must reject a Diff without the second move loop
